@@ -119,6 +119,12 @@ impl RefSign {
     /// One step of the documented machine. Returns the reply and whether the statement leaves this step open.
     pub fn step(&mut self, m: &Message<'_>) -> (Option<Message<'static>>, Open) {
         let r = self.step_inner(m);
+        if Self::strict() && !self.bounds_only {
+            // strict reading: nothing about a transfer or a configuration attempt is ever open
+            self.clean = true;
+            self.cfg_open = false;
+            self.cfg_zero = false;
+        }
         if self.state != State::PixelsInProgress {
             self.stream.clear();
         }
@@ -263,6 +269,14 @@ impl RefSign {
         self.cfg_zero = false;
         self.prev_typ = None;
         self.stream.clear();
+    }
+
+    /// `VERIF_C13_STRICT=1` switches the don't-cares 1, 4 and 5 off: every chunk that arrives while receiving counts as
+    /// accepted, configuration knowledge is never "open". This is the reading under which a sign that refuses
+    /// out-of-sequence chunks (seed C13-w6-1 = benign B-C14-3) violates C13. Off by default (DESIGN.md section 7).
+    pub fn strict() -> bool {
+        static S: std::sync::OnceLock<bool> = std::sync::OnceLock::new();
+        *S.get_or_init(|| std::env::var("VERIF_C13_STRICT").map(|v| v == "1").unwrap_or(false))
     }
 
     /// `step` plus the rule for `pages()` after it.
